@@ -45,7 +45,8 @@ RULE = ("corpus/C16 first; exhaustive: every sequence of <=2 operations over an 
         "over the reduced alphabet + 80000 seeded sequences of length 3-5; random: state-guided histories of length 5..40 over 3 names x 5 "
         "kinds, receivers collection/object (absolute and relative), string or object alias targets, streams top-down / bottom-up "
         "(detached construction with alloc+set, dead references) / malformed (empty keys, empty components, missing and over-long paths, "
-        "self targets); implementation-only histories with alias chains, lookups through aliases and .py/.pyi modules (stub merge). "
+        "self targets); implementation-only histories with alias chains, .py/.pyi modules (stub merge) and dotted/tuple/item lookups "
+        "ACROSS resolved aliases compared with the chained lookup. "
         "non-trivial = at least one operation succeeded and the final tree has depth >= 2 or an alias; distinct by canonical operation list")
 TRUSTED = ["abstraction: harness/props/c16.py:World.dump reads name, kind, parent, members (ordered), resolved target, target_path, "
            "aliases (sorted), modules_collection reachability and path of every object ever constructed in the history",
@@ -964,6 +965,13 @@ def check_parts(ctx):
 
 
 # ---------------------------------------------------------------- implementation-only stream (outside the model: chains, through-alias, stubs)
+def functools_reduce_get(col, parts):
+    cur = col
+    for part in parts:
+        cur = cur.get_member(part)
+    return cur
+
+
 def impl_only_history(ctx, n, label="impl-only"):
     """Top-down histories that also use alias chains, lookups through aliases and modules with file paths (stub merge).
     Only the clauses that are meaningful there are evaluated: parent/retrievable/dotted=chained/deleted-gone/no-self-target and,
@@ -1094,6 +1102,45 @@ def impl_only_history(ctx, n, label="impl-only"):
                 if fid is None:
                     return
                 continue
+        # dotted / tuple lookup = chained lookup, also ACROSS a resolved alias (the members of an alias are wrappers whose path
+        # continues the alias's path): compare what is observable of the two results
+        if rng.random() < 0.35:
+            def view(x):
+                try:
+                    ft = x.final_target if x.is_alias else x
+                    return [bool(x.is_alias), x.path, id(ft)]
+                except (ARE, CAE, KeyError, AttributeError, ValueError) as e2:
+                    return ["unresolvable", type(e2).__name__]
+
+            def attempt(f):
+                try:
+                    return view(f())
+                except (ARE, CAE) as e2:
+                    return ["alias-error"]
+                except (KeyError, AttributeError, ValueError) as e2:
+                    return ["rejected"]
+
+            for q, _, m in walk():
+                if not (m.is_alias and m.resolved):
+                    continue
+                try:
+                    ft = m.final_target
+                    names = list(ft.members)[:3]
+                except (ARE, CAE, KeyError, AttributeError, ValueError):
+                    continue
+                for n2 in names:
+                    full = q + (n2,)
+                    chained = attempt(lambda: col.get_member(q).get_member(n2))
+                    one_by_one = attempt(lambda: functools_reduce_get(col, full))
+                    for form_name, f in (("get_member(str)", lambda: col.get_member(".".join(full))), ("get_member(tuple)", lambda: col.get_member(full)),
+                                         ("getitem(str)", lambda: col[".".join(full)]), ("getitem(tuple)", lambda: col[full])):
+                        got = attempt(f)
+                        ctx.observe("impl_only_cross_alias", form_name)
+                        if got != chained or got != one_by_one:
+                            ctx.observe("direct_failure", "impl-only:dotted-eq-chained")
+                            ctx.property_failure({"stream": label, "history": list(hist)},
+                                                 {"clause": "dotted-eq-chained", "detail": {"path": ".".join(full), "form": form_name, "dotted": got[:2], "chained": chained[:2]}})
+                            return
     ctx.case({"stream": label, "ops": hist}, len(hist) > 3)
     ctx.observe("stream", label)
 
